@@ -22,6 +22,7 @@ import (
 	"runtime"
 	"strconv"
 	"strings"
+	"sync"
 	"time"
 
 	"github.com/krotik/ecal/interpreter"
@@ -119,6 +120,7 @@ const c07Pkg = "github.com/krotik/ecal/parser."
 var c07Known = map[string]bool{} // goroutines already reported as leaked in this process
 
 type c07Gor struct {
+	state  string // runnable, running, chan send, select, …
 	id     string
 	frames []string // functions of package parser on its stack, innermost first
 }
@@ -139,7 +141,12 @@ func c07ParserGoroutines() []c07Gor {
 		if len(lines) == 0 || !strings.HasPrefix(lines[0], "goroutine ") {
 			continue
 		}
-		id := strings.SplitN(lines[0][len("goroutine "):], " ", 2)[0]
+		hd := strings.SplitN(lines[0][len("goroutine "):], " ", 2)
+		id := hd[0]
+		state := ""
+		if len(hd) > 1 {
+			state = strings.Trim(strings.SplitN(hd[1], ",", 2)[0], "[]:")
+		}
 		if c07Known[id] {
 			continue
 		}
@@ -154,7 +161,7 @@ func c07ParserGoroutines() []c07Gor {
 			}
 		}
 		if len(fr) > 0 {
-			res = append(res, c07Gor{id, fr})
+			res = append(res, c07Gor{state, id, fr})
 		}
 	}
 	return res
@@ -162,9 +169,9 @@ func c07ParserGoroutines() []c07Gor {
 
 // c07LeakAtReturn is called directly after parser.Parse returned.
 func c07LeakAtReturn(before int) (int, string) {
-	for i := 0; i < 20 && runtime.NumGoroutine() > before; i++ {
-		runtime.Gosched() // what a goroutine past its close() needs to get off the books
-	}
+	// AT RETURN: the goroutine count is read, and if it is above the level before the call the goroutine dump is
+	// taken, BEFORE this goroutine yields once. Only goroutines recognised in that dump as a lexer past its close()
+	// (no frame below run / the go-statement wrapper) are then given time to end.
 	if runtime.NumGoroutine() <= before {
 		return 0, ""
 	}
@@ -181,9 +188,10 @@ func c07LeakAtReturn(before int) (int, string) {
 		gs := c07ParserGoroutines()
 		var bad []string
 		for _, g := range gs {
-			ending := true // only (*lexer).run and/or the wrapper of its go statement: past close(), about to end
+			// only (*lexer).run and/or the wrapper of its go statement, and not blocked: past close(), about to end
+			ending := g.state == "runnable" || g.state == "running"
 			for _, fr := range g.frames {
-				if fr != "parser.(*lexer).run" && fr != "parser.Lex.gowrap1" {
+				if fr != "parser.(*lexer).run" && !strings.HasPrefix(fr, "parser.Lex.") { // Lex.gowrap1 / Lex.func1: wrapper of the go statement
 					ending = false
 				}
 			}
@@ -194,7 +202,7 @@ func c07LeakAtReturn(before int) (int, string) {
 		if len(gs) == 0 {
 			return 0, ""
 		}
-		if len(bad) == 0 && time.Since(t0) > 2*time.Second {
+		if len(bad) == 0 && time.Since(t0) > 60*time.Second { // (a runnable goroutine on a heavily loaded machine may wait long for a CPU)
 			bad = append(bad, "parser.(*lexer).run-does-not-end")
 		}
 		if len(bad) > 0 {
@@ -212,6 +220,9 @@ func c07LeakAtReturn(before int) (int, string) {
 
 func c07Run(payload string) string {
 	f := strings.Split(payload, " ")
+	if f[0] == "CONC" {
+		return c07Concurrent(f[1])
+	}
 	src := unhx(f[0])
 	if len(f) > 1 && f[1] == "UNVERIFIED" {
 		return "SKIPPED"
@@ -223,14 +234,33 @@ func c07Run(payload string) string {
 		select {
 		case <-done:
 			return "LEXER-OK-HERE-BUT-FAILED-IN-GENERATOR"
-		case <-time.After(5 * time.Second):
+		case <-time.After(30 * time.Second):
 			panic("HANG: parser.Parse does not return (lexer does not terminate) on this input")
 		}
 	}
 	before := runtime.NumGoroutine()
 	ast, err := parser.Parse("t", src)
 	leak, frames := c07LeakAtReturn(before)
-	tail := fmt.Sprintf(" leak=%d", leak)
+	// the production entry point, on EVERY case: ParseWithRuntime with the ECAL runtime provider must answer like
+	// Parse (tree / error kind+position), never both / neither, and leave nothing running either
+	erp := interpreter.NewECALRuntimeProvider("t", nil, &memLog{})
+	before2 := runtime.NumGoroutine()
+	ast2, err2 := parser.ParseWithRuntime("t", src, erp)
+	if l2, f2 := c07LeakAtReturn(before2); l2 == 1 && leak == 0 {
+		leak, frames = 1, "ParseWithRuntime:"+f2
+	}
+	rt := "same"
+	switch {
+	case (ast2 == nil) != (ast == nil) || (err2 == nil) != (err == nil):
+		rt = fmt.Sprintf("DIFF:tree=%v,err=%v", ast2 != nil, err2 != nil)
+	case err != nil && c07Kind(err) != c07Kind(err2):
+		rt = "DIFF:" + strings.ReplaceAll(c07Kind(err2), " ", "_")
+	case ast != nil:
+		if ok, _ := ast.Equals(ast2, false); !ok {
+			rt = "DIFF:tree"
+		}
+	}
+	tail := fmt.Sprintf(" leak=%d rt=%s", leak, rt)
 	if leak == 1 {
 		CountRun("leaks")
 		tail += " frames=" + frames
@@ -246,15 +276,101 @@ func c07Run(payload string) string {
 		sb.WriteString("NEITHER")
 	case err != nil:
 		CountRun("errors")
-		sb.WriteString("ERR " + c07Kind(err))
+		sb.WriteString("ERR " + c07Kind(err) + " at=" + c07At(src, err))
 	default:
 		CountRun("trees")
 		sb.WriteString("OK ")
 		c07Tree(&sb, ast)
 		sb.WriteString(" wf=1")
-		tail += c07Consumers(src, ast)
+		tail += c07Consumers(ast, ast2)
 	}
 	return sb.String() + tail
+}
+
+// c07Concurrent: eight callers of parser.Parse at the same time, each on its own DISTINCT inputs (new identifiers,
+// strings, numbers all the time); every answer must be the one a single caller gets, and nothing may be left
+// running. State shared between calls (a package-level cache, a rewritten table) shows here as a wrong answer or
+// as a fatal `concurrent map writes` (which kills the process: CRASH).
+func c07Concurrent(seed string) string {
+	n, _ := strconv.Atoi(seed)
+	const callers, rounds = 8, 1500
+	src := func(g, i int) string {
+		switch i % 4 {
+		case 0:
+			return fmt.Sprintf("v%dx%dx%d := w%d + %d", n, g, i, i, i)
+		case 1:
+			return fmt.Sprintf("if c%dx%dx%d { f%d(\"s%d\") } else { ) }", n, g, i, i, i)
+		case 2:
+			return fmt.Sprintf("for x%dx%d in {\"k%dx%d\" : %d} { }", g, i, g, i, i)
+		default:
+			return fmt.Sprintf("func q%dx%dx%d(a%d) { return a%d } z%d", n, g, i, i, i, i)
+		}
+	}
+	one := func(s string) string {
+		a, e := parser.Parse("t", s)
+		var sb strings.Builder
+		if a != nil {
+			c07Tree(&sb, a)
+		}
+		if e != nil {
+			sb.WriteString(" " + c07Kind(e))
+		}
+		return sb.String()
+	}
+	before := runtime.NumGoroutine()
+	bad := make(chan string, callers)
+	var wg sync.WaitGroup
+	for g := 0; g < callers; g++ {
+		wg.Add(1)
+		go func(g int) {
+			defer wg.Done()
+			for i := 0; i < rounds; i++ {
+				s := src(g, i)
+				if r := one(s); r != one(s) {
+					select {
+					case bad <- s:
+					default:
+					}
+				}
+			}
+		}(g)
+	}
+	wg.Wait()
+	// the answers are also the ones of a single caller afterwards
+	for g := 0; g < callers; g++ {
+		for i := 0; i < 8; i++ {
+			s := src(g, i)
+			if a, b := one(s), one(s); a != b {
+				return "CONC-DIFF " + hx(s)
+			}
+		}
+	}
+	select {
+	case s := <-bad:
+		return "CONC-DIFF " + hx(s)
+	default:
+	}
+	if l, fr := c07LeakAtReturn(before); l == 1 {
+		return "CONC-LEAK " + fr
+	}
+	return "CONC-OK"
+}
+
+// c07At: where the error points: at a token of the input (tok), nowhere (unpos: line 0), or elsewhere (none).
+func c07At(src string, err error) string {
+	pe, ok := err.(*parser.Error)
+	if !ok {
+		return "none"
+	}
+	if pe.Line == 0 {
+		return "unpos"
+	}
+	for _, t := range parser.LexToList("t", src) {
+		if t.Lline == pe.Line && t.Lpos == pe.Pos {
+			return "tok"
+		}
+	}
+	return "none"
 }
 
 // consumers -----------------------------------------------------------------------
@@ -274,22 +390,13 @@ func c07Try(what string, f func()) (res string) {
 	return ""
 }
 
-func c07Consumers(src string, ast *parser.ASTNode) string {
+func c07Consumers(ast, ast2 *parser.ASTNode) string {
 	if r := c07Try("PrettyPrint", func() { parser.PrettyPrint(ast) }); r != "" {
 		return r
 	}
-	return c07Try("ParseWithRuntime+Validate", func() {
-		erp := interpreter.NewECALRuntimeProvider("t", nil, &memLog{})
-		a2, err := parser.ParseWithRuntime("t", src, erp)
-		if err != nil || a2 == nil {
-			panic(fmt.Sprint("ParseWithRuntime with a runtime provider disagrees with Parse: ", err))
-		}
-		// the production entry point returns the SAME tree as Parse (positions included)
-		if ok, msg := ast.Equals(a2, false); !ok {
-			panic("tree of ParseWithRuntime differs from the tree of Parse: " + oneLine(msg))
-		}
-		if a2.Runtime != nil {
-			a2.Runtime.Validate()
+	return c07Try("Validate", func() {
+		if ast2 != nil && ast2.Runtime != nil {
+			ast2.Runtime.Validate()
 		}
 	}) + c07Try("String/ToJSONObject/ASTFromJSONObject", func() {
 		// the serialisations of a tree walk it as well (helper.go); the JSON form must be readable again
@@ -424,7 +531,7 @@ func c07SafeTokens(src string) (string, bool) {
 	select {
 	case t := <-ch:
 		return t, t != ""
-	case <-time.After(10 * time.Second):
+	case <-time.After(180 * time.Second): // generous: the longest generated inputs have 10^6 tokens, the machine may be loaded
 		return "", false
 	}
 }
@@ -476,13 +583,31 @@ func c07Prepass(srcs []string) map[string]bool {
 		}
 		cmd.Wait()
 		if begun > done { // died or hung while lexing source number `begun` of this part
-			bad[srcs[from+begun]] = true
+			// believed only if it fails again ALONE with a ten times longer limit (a loaded machine can stall a child)
+			if c07ProbeAlone(exe, srcs[from+begun]) {
+				bad[srcs[from+begun]] = true
+			}
 			from += begun + 1
 		} else {
 			break
 		}
 	}
 	return bad
+}
+
+// c07EmitRaw emits a payload which is not a source text (keeps the case counter in step).
+func c07EmitRaw(g *Gen, payload string) {
+	c07Idx++
+	g.Emit(payload)
+}
+
+// c07ProbeAlone: does lexing this one source fail (crash / not finish within 30 s) in a child of its own?
+func c07ProbeAlone(exe, src string) bool {
+	cmd := exec.Command(exe, "C07", "-tool", "lexprobe")
+	cmd.Env = append(os.Environ(), "C07_PROBE_LIMIT=30")
+	cmd.Stdin = strings.NewReader(hx(src) + "\n")
+	out, err := cmd.Output()
+	return err != nil || !strings.Contains(string(out), "E 0")
 }
 
 func c07Emit(g *Gen, kind, src string) {
@@ -536,6 +661,14 @@ func c07Enum(g *Gen, emit func(kind, src string), riskyOnly bool) {
 	emit("longtail", "a b "+strings.Repeat("c ; ", tailN/2))
 	emit("longtail", "if { "+strings.Repeat("x := [ 1 , 2 ] \n", tailN/8))
 	c07LongTails(g, emit)
+	nConc := 3
+	if os.Getenv("C07_AMPLIFY") != "" {
+		nConc = 8
+	}
+	for k := 0; k < nConc && !riskyOnly; k++ {
+		g.Count("concurrent")
+		c07EmitRaw(g, fmt.Sprintf("CONC %d", int(g.Seed%1000)*10+k))
+	}
 	// exhaustive byte strings of length <= 3 over 20 symbols
 	var rec func(prefix string, n int)
 	rec = func(prefix string, n int) {
@@ -680,6 +813,10 @@ func c07Tool(args []string) int {
 		sc := bufio.NewScanner(os.Stdin)
 		sc.Buffer(make([]byte, 1<<20), 1<<28)
 		w := bufio.NewWriter(os.Stdout)
+		limit := 3 * time.Second
+		if v, err := strconv.Atoi(os.Getenv("C07_PROBE_LIMIT")); err == nil && v > 0 {
+			limit = time.Duration(v) * time.Second
+		}
 		for i := 0; sc.Scan(); i++ {
 			fmt.Fprintf(w, "B %d\n", i)
 			w.Flush()
@@ -688,7 +825,7 @@ func c07Tool(args []string) int {
 			go func() { parser.LexToList("t", src); done <- true }()
 			select {
 			case <-done:
-			case <-time.After(3 * time.Second):
+			case <-time.After(limit):
 				os.Exit(3)
 			}
 			fmt.Fprintf(w, "E %d\n", i)
@@ -722,5 +859,5 @@ func c07Tool(args []string) int {
 }
 
 func init() {
-	register("C07", &Prop{Gen: c07Gen, Run: c07Run, Timeout: 60 * time.Second, Tool: c07Tool})
+	register("C07", &Prop{Gen: c07Gen, Run: c07Run, Timeout: 120 * time.Second, Tool: c07Tool})
 }
